@@ -123,6 +123,10 @@ type EmbedOuter struct {
 var allBridged = []string{"struct", "map", "slice", "array", "nmap", "anyslice", "ptrslice", "funcslice", "nilmap", "nilslice", "structval", "embednil",
 	"ifacemap", "structmap", "nilfunc", "funcstruct", "nilptr", "structslice", "mapslice"}
 
+// quickPairReceivers: the receivers of the arity-2 product in the quick tier.
+var quickPairReceivers = map[string]bool{"undefined": true, "0": true, "str-abc": true, "str-u16": true, "object": true, "array": true, "function": true,
+	"date": true, "regexp": true, "String": true, "go-struct": true, "go-slice": true}
+
 // GoStruct is the bridged struct kind.
 type GoStruct struct {
 	A int
